@@ -43,6 +43,21 @@ def lam_cos(e):
 LAMBDAS = {"lin": lam_lin, "inv": lam_inv, "alt": lam_alt, "cos": lam_cos}
 
 
+class Ramp:
+    """a schedule given as a callable OBJECT with state of its own (a warm-up that counts how often it was asked): such
+    objects are part of a Lambda scheduler's state_dict and have to come back from a checkpoint with their state"""
+
+    def __init__(self):
+        self.calls = 0
+
+    def __call__(self, e):
+        self.calls += 1
+        return 1.0 / (1.0 + 0.125 * self.calls)
+
+    def state(self):
+        return ("Ramp", self.calls)
+
+
 def map_err(e: BaseException) -> str:
     m = str(e)
     if "have to stay constant in GaussianAccountant" in m:
@@ -126,9 +141,10 @@ class RealEng:
                 return (S.ExponentialNoise if noise else S.ExponentialGradClip)(self.opt, gamma=spec[1])
             if spec[0] == "step":
                 return (S.StepNoise if noise else S.StepGradClip)(self.opt, step_size=spec[2], gamma=spec[1])
+            fn = Ramp() if spec[1] == "obj" else LAMBDAS[spec[1]]
             if noise:
-                return S.LambdaNoise(self.opt, noise_lambda=LAMBDAS[spec[1]])
-            return S.LambdaGradClip(self.opt, scheduler_function=LAMBDAS[spec[1]])
+                return S.LambdaNoise(self.opt, noise_lambda=fn)
+            return S.LambdaGradClip(self.opt, scheduler_function=fn)
 
         self.nsched = mk(tuple(c["ns"]), True)
         self.csched = mk(tuple(c["cs"]), False)
